@@ -536,6 +536,36 @@ func (rpi RetentionPolicyInfo) Clone() *RetentionPolicyInfo {
 			other.MstVersions[k] = *mstv.clone()
 		}
 	}
+	if rpi.Subscriptions != nil {
+		other.Subscriptions = make([]SubscriptionInfo, len(rpi.Subscriptions))
+		for i := range rpi.Subscriptions {
+			other.Subscriptions[i] = rpi.Subscriptions[i]
+			other.Subscriptions[i].Destinations = append([]string(nil), rpi.Subscriptions[i].Destinations...)
+		}
+	}
+	if rpi.DownSamplePolicyInfo != nil {
+		dsp := *rpi.DownSamplePolicyInfo
+		if dsp.Calls != nil {
+			dsp.Calls = make([]*DownSampleOperators, len(rpi.DownSamplePolicyInfo.Calls))
+			for i, c := range rpi.DownSamplePolicyInfo.Calls {
+				if c != nil {
+					cc := *c
+					cc.AggOps = append([]string(nil), c.AggOps...)
+					dsp.Calls[i] = &cc
+				}
+			}
+		}
+		if dsp.DownSamplePolicies != nil {
+			dsp.DownSamplePolicies = make([]*DownSamplePolicy, len(rpi.DownSamplePolicyInfo.DownSamplePolicies))
+			for i, p := range rpi.DownSamplePolicyInfo.DownSamplePolicies {
+				if p != nil {
+					pp := *p
+					dsp.DownSamplePolicies[i] = &pp
+				}
+			}
+		}
+		other.DownSamplePolicyInfo = &dsp
+	}
 	return &other
 }
 
